@@ -9,7 +9,7 @@
   the list of top-level nodes of that parse as plain trees: `[root]`, resp. the wrapper's blocks.
   The theorems are stated over this input so that they compose with the tree-builder theorems (C02).
 -/
-import AHP.Lemmas.Fragment
+import AHP.Lemmas.DomAppend
 namespace AHP.C20
 open AHP AHP.Dom AHP.Dom.Spec
 
@@ -128,6 +128,45 @@ theorem appendInnerHTML_keeps_inv (w w' : World) (t : Nat) (p : Parsed) (v : Val
 theorem appendInnerHTML_refines (w : World) (t : Nat) (p : Parsed) (hw : Inv w) (hp : Parsed.plain p) :
     (w.appendInnerHTML t p).map absR = (absW w).appendInnerHTML t p :=
   abs_appendInnerHTML hw t p hp
+
+theorem createBlocks_ne_nil (p : Parsed) (d n : Nat) : createBlocks (p.build d n).1 ≠ [] := by
+  cases p with
+  | single r =>
+    cases r with
+    | text s => simp [Parsed.build, createBlocks]
+    | el name attrs sc kids =>
+      simp only [Parsed.build]; rw [mk_el]; simp only [createBlocks]; split <;> simp
+  | multi tops => simp [Parsed.build, createBlocks, wrapperName]
+
+/-- C20d. After `appendInnerHTML(h)` the target's blocks are the previous blocks followed by the
+    top-level nodes of the parse, and its innerHTML is the previous innerHTML followed by the
+    serialisation of those nodes (also when the target was self-closing before: then the previous
+    innerHTML is empty and the flag is cleared). -/
+theorem appendInnerHTML_innerHTML (w w' : World) (t : Nat) (p : Parsed) (v : Val) (m : Meta) (bs : List DN)
+    (hw : Inv w) (hp : Parsed.plain p) (hf : w.find? t = some (m, bs)) (h : w.appendInnerHTML t p = some (w', v)) :
+    ∃ m' bs', w'.find? t = some (m', bs') ∧ absL bs' = absL bs ++ (sfragment w.next p).1 ∧
+      innerHTML m' bs' = innerHTML m bs ++ shtmlL (sfragment w.next p).1 := by
+  simp only [World.appendInnerHTML, Option.map_eq_some_iff] at h
+  obtain ⟨w1, h1, he⟩ := h
+  simp only [Prod.mk.injEq] at he
+  obtain ⟨m', bs', hf', hb, hsc, _⟩ := appendLoop_blocks t (createBlocks (p.build w.nextDoc w.next).1) w.roots _ _ m bs w1 hf
+    (fragment_world_Inv p hw) h1
+  have hcb := (abs_createBlocks p hp w.nextDoc w.next).1
+  rw [hcb] at hb
+  refine ⟨m', bs', he.1 ▸ hf', hb, ?_⟩
+  have hsc' : m'.sc = false := hsc (createBlocks_ne_nil p _ _)
+  obtain ⟨par, own, hk⟩ := findL?_roots_OK t w.roots hw.roots hf
+  simp only [OK_el] at hk
+  have hold : innerHTML m bs = shtmlL (absL bs) := by
+    simp only [innerHTML]
+    split
+    · rename_i hs
+      rw [← innerL_abs, noContent_innerL bs (hk.2.2.2.2.1 hs)]
+    · exact innerL_abs bs
+  rw [hold]
+  simp only [innerHTML, hsc']
+  rw [innerL_abs, hb, shtmlL_append]
+  simp
 
 /-! ## C20e — createElement -/
 
